@@ -218,6 +218,7 @@ def function_interpreter_arms(ctx, F):
 
 WRITER_SILENT_REVIEWED = {
     "<css::item::Item>::write": "Item::None (and items that were merged away) write nothing by design",
+    "<css::comment::Comment>::write": "in compressed style only `/*! ... */` comments are written (which comments are kept is C36's rule; that comment text never reaches compressed output otherwise is C07's)",
     "<css::mediarule::MediaArgs>::write": "an empty media query list writes nothing",
     "<css::mediarule::MediaRule>::write": "a @media rule whose body is empty is omitted (Sass semantics)",
     "<css::rule::Rule>::write": "a style rule without body, or whose selectors were all placeholders (C22), is omitted",
